@@ -25,7 +25,7 @@ FLOOR = {"quick": 100, "thorough": 2000}
 REQUIRED_COUNTERS = ["import_statements_scanned", "files_scanned", "runtime_files_compared", "import_audit_events",
                      "modules_imported_generator_blocked", "nested_imports_scanned", "typed_map_wrappers_exercised", "stale_core_scenarios"]
 RULE = ("C01's document grammar biased towards rarely emitted templates (typed/untyped additionalProperties wrappers, unions, "
-        "enums) x 8 layouts; case = (document, layout); non-trivial = accepted, >=1 operation, >=2 schemas joined by a reference")
+        "enums) x 9 layouts; case = (document, layout); non-trivial = accepted, >=1 operation, >=2 schemas joined by a reference")
 ASSUMPTIONS = ["standard library = sys.stdlib_module_names of the probe interpreter (3.12)"]
 
 RUNTIME = ["http_transport.py", "exceptions.py", "streaming_helpers.py", "pagination.py", "cattrs_converter.py", "utils.py",
